@@ -5,7 +5,8 @@ SPEC = {
     "drivers": [{"pkg": "internal/plugin", "test": "TestVerifC13"},
                 {"pkg": "internal/system", "test": "TestVerifC13Addresser", "corr_module": "Corr.C13sys"},
                 # real parallelism: wildcard expansions of several interfaces at the same time
-                {"pkg": "internal/plugin", "test": "TestVerifParallelApply", "arch386": []}],
+                {"pkg": "internal/plugin", "test": "TestVerifParallelApply", "arch386": []},
+                {"pkg": "internal/plugin", "test": "TestVerifNetnsWildcards", "arch386": []}],
     "rule": "bounded-exhaustive: every sequence with repetition of length <= 3 (quick) / <= 4 (thorough) over a 14-entry pool "
             "(= all subsets x all permutations, plus all multiplicities) mixing ULA/GUA/link-local/IPv4, lengths 48/64/128, each flag, "
             "two hosts per /64, the edges of fe80::/10; random lists up to length 40 (exact duplicates, IPv4, IPv4-mapped, random "
